@@ -19,9 +19,9 @@ import vf
 MC = "---- MODULE MCSettings ----\nEXTENDS Settings\nAllKeys == Keys\n====\n"
 
 
-def cfg(maxops, rand, pairs=False):
-    return ("CONSTANTS MaxOps = %d  Rand = %s  Pairs = %s\n KeySet <- AllKeys\nSPECIFICATION Spec\nINVARIANTS TypeOK Idempotent Frame Emit\nCHECK_DEADLOCK FALSE\n"
-            % (maxops, "TRUE" if rand else "FALSE", "TRUE" if pairs else "FALSE"))
+def cfg(maxops, rand, pairs=False, overlap=False):
+    return ("CONSTANTS MaxOps = %d  Rand = %s  Pairs = %s  Overlap = %s\n KeySet <- AllKeys\nSPECIFICATION Spec\nINVARIANTS TypeOK Idempotent Frame Emit\nCHECK_DEADLOCK FALSE\n"
+            % (maxops, "TRUE" if rand else "FALSE", "TRUE" if pairs else "FALSE", "TRUE" if overlap else "FALSE"))
 
 
 def render_payload(p, jsonof):
@@ -69,6 +69,15 @@ def gen(run):
             out.append(("pair-change", {"h": [h0] + [dict(st, via="change") for st in c["h"]], "json": c["json"]}))
             if thorough:
                 out.append(("pair-init", c))
+    # two changes on DIFFERENT fields whose configuration pulls overlap: the client answers the first pull only after the
+    # second change has been applied. Whichever is applied last, both values must be in effect afterwards.
+    r = run.tlc("MCSettings", cfg(2, False, overlap=True), workers=8, timeout=1800, extra_modules={"MCSettings": MC})
+    ov = sorted(r.json, key=lambda c: json.dumps(c["h"], sort_keys=True))
+    if not thorough and len(ov) > 1500:
+        ov = run.rng.sample(ov, 1500)
+    for c in ov:
+        a, b = c["h"]
+        out.append(("overlap", {"h": [h0, dict(a, via="change-held", expect=None), dict(b, via="change")], "json": c["json"]}))
     for depth, num in ([(4, 500)] if not thorough else [(4, 8000), (6, 3000)]):
         r = run.tlc("MCSettings", cfg(depth, True), mode="simulate", simulate=num, depth=depth + 1, workers=1, timeout=1800,
                     extra_modules={"MCSettings": MC})
